@@ -1,5 +1,6 @@
 //! vcheck: supervisor / worker / replay front-end of the verification harness.
 
+mod cli;
 mod fmtimpl;
 
 use std::io::Read;
@@ -42,6 +43,9 @@ fn dispatch<V: Visitor>(id: &str, v: V) -> Option<V::R> {
         "C11" => v.visit(&SrcProp { which: Which::C11 }),
         "C12" => v.visit(&SrcProp { which: Which::C12 }),
         "C13" => v.visit(&SrcProp { which: Which::C13 }),
+        "C14" => v.visit(&cli::CliProp { which: cli::CliWhich::C14 }),
+        "C15" => v.visit(&cli::CliProp { which: cli::CliWhich::C15 }),
+        "C16" => v.visit(&cli::CliProp { which: cli::CliWhich::C16 }),
         "C18" => v.visit(&C18),
         "C19" => v.visit(&SrcProp { which: Which::C19 }),
         _ => return None,
